@@ -147,6 +147,13 @@ func layoutRules(P *Program, r *Result, kinds []string) {
 				r.add("LEN", shortName(wf), "return", "the in-place writer reports "+sp.length+" bytes written", P.pos(wf.Pos()), tot == sp.length, "returns "+tot)
 			}
 		}
+		// the no-copy variant of the length function advertises the same size (the copying writers are what it sizes for
+		// when no direct writer is attached)
+		if lf := P.Method(relThrift, "BinaryProtocol", k+"LengthNocopy"); lf != nil {
+			r.Funcs[shortName(lf)] = true
+			got := L.lengthFunc(lf).String()
+			r.add("LEN", shortName(lf), "value", "advertised length equals the encoded size "+sp.length, P.pos(lf.Pos()), got == sp.length, "function returns "+got)
+		}
 		if sp.reader == "" {
 			continue
 		}
